@@ -1,10 +1,13 @@
 #!/bin/bash
-# scripts/audit_cross.sh <seeded-name> — applies one seeded change to /repo, runs EVERY quick check, reverts; prints which
-# properties raise an alarm (to judge by hand whether each alarm is legitimate for that change).
+# scripts/audit_cross.sh <seeded-name> — applies one seeded change to a SCRATCH COPY of /repo (via $VERIF_REPO, /repo is
+# not touched), runs EVERY quick check against it, and prints which properties raise an alarm (to judge by hand whether
+# each alarm is legitimate for that change).
 cd /verif
 name="$1"
-if ! git -C /repo diff --quiet; then echo "/repo has local modifications; refusing"; exit 2; fi
-git -C /repo apply "/verif/seeded/$name/patch.diff" || exit 2
-./scripts/run_all.sh quick 2>&1 | sed "s/^/$name: /" | cut -c1-260
-git -C /repo checkout -- .; git -C /repo clean -fdq -- src tests 2>/dev/null
+scratch=$(mktemp -d /tmp/verif-audit.XXXXXX)
+trap 'rm -rf "$scratch"; ln -sfn /repo /verif/engine-link' EXIT
+mkdir -p "$scratch/repo"
+(cd /repo && tar cf - --exclude=target --exclude=.git .) | (cd "$scratch/repo" && tar xf -)
+(cd "$scratch/repo" && patch -p1 -s < "/verif/seeded/$name/patch.diff") || exit 2
+VERIF_REPO="$scratch/repo" ./scripts/run_all.sh quick 2>&1 | sed "s/^/$name: /" | cut -c1-230
 git -C /verif checkout -- evidence 2>/dev/null
